@@ -80,6 +80,202 @@ impl EvalCmp {
     }
 }
 
+// ---------------------------------------------------------------------------
+// addressing probes: small programs over nested records whose result depends on
+// exactly one leaf of a nested aggregate
+// ---------------------------------------------------------------------------
+
+#[derive(Clone)]
+enum PTy {
+    Leaf(IntTy),
+    Bool,
+    Rec(usize),
+}
+
+struct PRec {
+    name: String,
+    anon: bool,
+    fields: Vec<(String, PTy)>,
+}
+
+struct Probe {
+    recs: Vec<PRec>,
+    counter: u64,
+}
+
+impl Probe {
+    /// record `depth` levels above the leaves; returns its index
+    fn gen_rec(&mut self, rng: &mut Rng, depth: u32, anon: bool, regular: Option<IntTy>) -> usize {
+        let n = 2 + rng.usize(3);
+        let mut fields = Vec::new();
+        if let Some(t) = regular {
+            // one leaf width, all siblings of one shape: every sub-record then sits at a
+            // multiple of its own size, which is what the evaluator's alignment check
+            // (offset % access size == 0, also for whole-record copies) accepts
+            let child = if depth > 0 { Some(self.gen_rec(rng, depth - 1, anon, regular)) } else { None };
+            for i in 0..n {
+                fields.push((format!("f{i}"), match child {
+                    Some(c) => PTy::Rec(c),
+                    None => PTy::Leaf(t),
+                }));
+            }
+            let idx = self.recs.len();
+            self.recs.push(PRec { name: format!("P{idx}"), anon, fields });
+            return idx;
+        }
+        // at least one nested record, rarely in first position
+        let nested_at = if depth > 0 { Some(if rng.chance(1, 5) { 0 } else { 1 + rng.usize(n - 1) }) } else { None };
+        for i in 0..n {
+            let t = if Some(i) == nested_at || (depth > 0 && rng.chance(1, 3)) {
+                PTy::Rec(self.gen_rec(rng, depth - 1, anon, None))
+            } else if rng.chance(1, 6) {
+                PTy::Bool
+            } else {
+                // the evaluator stops on most 64-bit comparisons: mostly narrower leaves
+                if rng.chance(1, 8) {
+                    PTy::Leaf(*rng.pick(&[IntTy::U64, IntTy::I64]))
+                } else {
+                    PTy::Leaf(*rng.pick(&[IntTy::U8, IntTy::U16, IntTy::U32, IntTy::I8, IntTy::I16, IntTy::I32]))
+                }
+            };
+            fields.push((format!("f{i}"), t));
+        }
+        let idx = self.recs.len();
+        self.recs.push(PRec { name: format!("P{idx}"), anon, fields });
+        idx
+    }
+
+    fn ty_src(&self, t: &PTy) -> String {
+        match t {
+            PTy::Leaf(i) => i.name().to_string(),
+            PTy::Bool => "bool".into(),
+            PTy::Rec(r) => {
+                let rec = &self.recs[*r];
+                if rec.anon {
+                    let fs: Vec<String> = rec.fields.iter().map(|(n, t)| format!("{n}: {}", self.ty_src(t))).collect();
+                    format!("{{{}}}", fs.join(", "))
+                } else {
+                    rec.name.clone()
+                }
+            }
+        }
+    }
+
+    /// all leaf paths below `t`
+    fn leaves(&self, t: &PTy, path: &mut Vec<String>, out: &mut Vec<(Vec<String>, PTy)>) {
+        match t {
+            PTy::Rec(r) => {
+                for (n, ft) in &self.recs[*r].fields {
+                    path.push(n.clone());
+                    self.leaves(ft, path, out);
+                    path.pop();
+                }
+            }
+            _ => out.push((path.clone(), t.clone())),
+        }
+    }
+
+    /// literal of `t`; every leaf gets a fresh small value, except `special` which gets `sv`
+    fn value_src(&mut self, t: &PTy, path: &mut Vec<String>, special: &Option<(Vec<String>, String)>) -> String {
+        match t {
+            PTy::Rec(r) => {
+                let fields = self.recs[*r].fields.clone();
+                let mut fs = Vec::new();
+                for (n, ft) in &fields {
+                    path.push(n.clone());
+                    fs.push(format!("{n}: {}", self.value_src(ft, path, special)));
+                    path.pop();
+                }
+                let rec = &self.recs[*r];
+                if rec.anon { format!("{{ {} }}", fs.join(", ")) } else { format!("{} {{ {} }}", rec.name, fs.join(", ")) }
+            }
+            _ => {
+                self.counter += 1;
+                if let Some((p, v)) = special
+                    && p == path
+                {
+                    return v.clone();
+                }
+                leaf_lit(t, self.counter)
+            }
+        }
+    }
+}
+
+fn leaf_lit(t: &PTy, k: u64) -> String {
+    match t {
+        PTy::Bool => (k % 2 == 0).to_string(),
+        PTy::Leaf(i) => format!("{}{}", 1 + k % 100, i.name()),
+        PTy::Rec(_) => unreachable!(),
+    }
+}
+
+/// A probe program: (source, return type, tags).
+fn probe_program(rng: &mut Rng) -> (String, Ty, Vec<String>) {
+    let mut p = Probe { recs: Vec::new(), counter: rng.below(50) };
+    let anon = rng.chance(1, 3);
+    let depth = 1 + rng.below(2) as u32;
+    let regular = if rng.chance(2, 3) { Some(*rng.pick(&[IntTy::U8, IntTy::U16, IntTy::U32, IntTy::I8, IntTy::I16, IntTy::I32])) } else { None };
+    let top = PTy::Rec(p.gen_rec(rng, depth, anon, regular));
+    let mut leaves = Vec::new();
+    p.leaves(&top, &mut Vec::new(), &mut leaves);
+    let (lpath, lty) = leaves[rng.usize(leaves.len())].clone();
+    let mut src = String::new();
+    if !anon {
+        for r in &p.recs {
+            let fs: Vec<String> = r.fields.iter().map(|(n, t)| format!("    {n}: {},\n", p.ty_src(t))).collect();
+            src.push_str(&format!("record {} {{\n{}}}\n\n", r.name, fs.concat()));
+        }
+    }
+    let tsrc = p.ty_src(&top);
+    // the same values twice
+    let start = p.counter;
+    let lv = p.value_src(&top, &mut Vec::new(), &None);
+    let kind = rng.below(6);
+    let differ = rng.chance(2, 3);
+    p.counter = start;
+    let special = if differ { Some((lpath.clone(), leaf_lit(&lty, start + 977))) } else { None };
+    let rv = p.value_src(&top, &mut Vec::new(), &special);
+    let ret_of = |t: &PTy| match t {
+        PTy::Bool => Ty::Bool,
+        PTy::Leaf(i) => Ty::Int(*i),
+        PTy::Rec(_) => unreachable!(),
+    };
+    let lp = lpath.join(".");
+    let (ret, body, kname): (Ty, String, &str) = match kind {
+        0 => (Ty::Bool, "    l == r\n".into(), "eq"),
+        1 => (Ty::Bool, "    l != r\n".into(), "ne"),
+        2 => (ret_of(&lty), format!("    r.{lp}\n"), "leaf-read"),
+        3 => {
+            // hand the enclosing inner record to a function that compares / reads
+            if lpath.len() >= 2 {
+                let outer = lpath[..lpath.len() - 1].join(".");
+                (Ty::Bool, format!("    let a = l.{outer};\n    let b = r.{outer};\n    a == b\n"), "inner-copy-eq")
+            } else {
+                (Ty::Bool, "    let a = l;\n    a != r\n".into(), "copy-ne")
+            }
+        }
+        4 => (ret_of(&lty), format!("    l.{lp} = r.{lp};\n    let c = l;\n    c.{lp}\n"), "leaf-write-read"),
+        _ => (Ty::Bool, format!("    l.{lp} = r.{lp};\n    l == r\n"), "leaf-write-eq"),
+    };
+    let ret_src = match &ret {
+        Ty::Bool => "bool".to_string(),
+        Ty::Int(i) => i.name().to_string(),
+        _ => unreachable!(),
+    };
+    src.push_str(&format!("fn main() -> {ret_src} {{\n    let l: {tsrc} = {lv};\n    let r: {tsrc} = {rv};\n{body}}}\n"));
+    let first = lpath.iter().all(|n| n == "f0");
+    let tags = vec![
+        format!("probe:{kname}"),
+        format!("probe:depth{}", lpath.len()),
+        format!("probe:{}", if anon { "anonymous" } else { "named" }),
+        format!("probe:leaf-{}", if first { "at-offset-0" } else { "at-inner-offset" }),
+        format!("probe:{}", if differ { "differs" } else { "equal" }),
+        format!("probe:shape-{}", if regular.is_some() { "regular" } else { "mixed" }),
+    ];
+    (src, ret, tags)
+}
+
 /// Outcome of comparing evaluator and compiled code on one program.
 pub enum Cmp {
     Skipped(String),
@@ -217,6 +413,10 @@ impl Family for EvalCmp {
     }
 
     fn describe(&mut self, _k: u64, rng: &mut Rng, _args: &Args) -> Option<J> {
+        if rng.chance(1, 4) {
+            let (src, _, _) = probe_program(rng);
+            return Some(J::obj().set("source", src).set("sig_hint", "evaluator/addressing-probe"));
+        }
         let (prog, _, src) = self.make(rng);
         // class of the program for the signature of a worker death: the evaluator is
         // known to crash (instead of panicking) on some programs with string values
@@ -230,6 +430,30 @@ impl Family for EvalCmp {
 
     fn run(&mut self, _k: u64, rng: &mut Rng, args: &Args) -> CaseOut {
         let mut out = CaseOut::default();
+        if rng.chance(1, 4) {
+            let (src, ret, tags) = probe_program(rng);
+            out.hash = hash_str(&src);
+            out.tags = tags;
+            out.sample = Some(J::obj().set("source", src.as_str()));
+            match compare(&self.rt, &src, &ret, &[vec![0]]) {
+                Cmp::Skipped(s) => out.skipped = Some(format!("probe:{s}")),
+                Cmp::Done { completed, panicked, events, finding } => {
+                    out.evals = completed + panicked.len() as u64;
+                    out.events = events;
+                    out.nontrivial = completed > 0;
+                    out.count("evaluator_completed", completed);
+                    out.count("evaluator_panicked", panicked.len() as u64);
+                    out.count("probe_completed", completed);
+                    for p in panicked {
+                        out.tags.push(format!("eval-panic:{p}"));
+                    }
+                    if let Some((kind, msg, _)) = finding {
+                        out.viol(format!("{kind}@addressing-probe"), msg, J::obj().set("source", src.as_str()));
+                    }
+                }
+            }
+            return out;
+        }
         let (prog, tags, src) = self.make(rng);
         out.hash = hash_str(&src);
         out.tags = tags;
